@@ -55,6 +55,8 @@ def impl_line(line):
     try:
         if k == "S":
             return _enc(helper.string(un(rest)))
+        if k == "U":
+            return _enc(helper.string(un(rest), False))
         if k == "V":
             try:
                 return "=" + _enc(helper.stringvalue(un(rest)))
@@ -96,8 +98,6 @@ def string_oracle(case):
                 return ("helper.stringvalue and Base._stringtokenvalue disagree on a STRING token", "disagree")
         else:
             v = text
-            if rep_ok(v) == "newline":
-                return None          # open finding C03-backslash-before-newline; exercised through parsed sources (kind 's')
         t1 = helper.string(v)
         toks2 = _tok1(t1 + follow)
         feat = feature(v) + head_tag(v)
@@ -131,8 +131,8 @@ _HEX = "0123456789abcdefABCDEF"
 _NL = {"\n": "\\a ", "\r": "\\d ", "\f": "\\c "}
 
 
-def ref_string(v):
-    """reference copy of helper.string as it is at the pinned HEAD (the three-state scanner of the repair): the open
+def ref_string(v, linecontinuation=True):
+    """reference copy of helper.string as it is at the pinned HEAD (the three-state scanner of the repairs): the open
     string finding is recognised only while the text written for the value is exactly this one"""
     out, st = [], 0
     for c in v:
@@ -141,14 +141,14 @@ def ref_string(v):
                 out.append("\\")
                 st = 2
                 continue
-            out.append("\\5c " if c in _HEX else "\\")
+            out.append("\\5c " if c in _HEX else "\\5c \\\f" if linecontinuation and c in _NL else "\\")
             st = 0
         elif st == 2:
             if c == "\\":
                 out.append("\\")
                 st = 1
                 continue
-            out.append("\\5c " if c in _HEX else "\\")
+            out.append("\\5c " if c in _HEX else "\\5c \\\f" if linecontinuation and c in _NL else "\\")
             st = 0
         elif c == "\\":
             st = 1
@@ -162,9 +162,8 @@ def ref_string(v):
 
 
 def rep_ok(v):
-    """QuoteFacts.rep_ok: the values string_roundtrip is proved for. Returns None (representable) or the reason:
-    'dquote' (an escape-introducing backslash directly before a double quote) / 'newline' (a backslash before a
-    newline character: helper.string writes backslash + newline escape, which unicodesub + cleanstring delete)"""
+    """QuoteStrFacts.rep_okc: the values string_roundtrip is proved for. Returns None (representable) or 'dquote'
+    (an escape-introducing backslash directly before a double quote: the output pinned by test_value.py:411)"""
     st = 0
     for c in v:
         if st == 0:
@@ -172,8 +171,6 @@ def rep_ok(v):
         elif c == "\\":
             st = 2 if st == 1 else 1
         else:
-            if c in "\n\r\f":
-                return "newline"
             if st == 1 and c == '"':
                 return "dquote"
             st = 0
@@ -194,8 +191,6 @@ def feature(v):
     r = rep_ok(v)
     if r == "dquote":
         return "value has a double quote preceded by an odd number of backslashes"
-    if r == "newline":
-        return "value has a backslash before a newline character"
     if "\\" in v:
         return "value has a backslash"
     return "backslash-free value"
@@ -214,7 +209,7 @@ def gen_function_cases(ctx, thorough):
             small.append("".join(tup))
     for v in small:
         c = cps(v)
-        lines += ["S " + c, "V " + c, "T " + c]
+        lines += ["S " + c, "U " + c, "V " + c, "T " + c]
     n_exh = len(lines)
     rnd = []
     for _ in range(30000 if thorough else 4000):
@@ -387,12 +382,12 @@ def comment_growth(t1, t2):
     return "[continuation lines grow by the indentation of the opening line; comment in: %s]" % ",".join(sorted(locs))
 
 
-_FORBIDDEN_IN_URI = re.compile(r""".*?[\(\)\s\;,'"]""", re.U)
+_FORBIDDEN_IN_URI = re.compile(r""".*?[\(\)\s\;,'"\\\x00-\x1f\x7f]""", re.U)
 
 
 def ref_uri(v):
     "reference copy of helper.uri at the pinned HEAD (quotes the value through helper.string only when it has to)"
-    return "url(%s)" % (ref_string(v) if _FORBIDDEN_IN_URI.match(v) else v)
+    return "url(%s)" % (ref_string(v, False) if _FORBIDDEN_IN_URI.match(v) else v)
 
 
 def explain_lines(t1, t2):
@@ -468,8 +463,6 @@ def refine(f, text, cause):
             # which writes a value without '(', ')', white space, ';', ',' or quotes bare, backslashes included
             if ok_u:
                 return " [input has a url() value with a backslash, written as the reference helper.uri writes it]"
-            if any(t[0] == "STRING" and rep_ok(_stv(t)) == "newline" for t in _tok1(text, True)):
-                return " [input has a string value with a backslash before a newline character, written as the reference helper.string writes it]"
             return " [only string values have a backslash]" if ok_s else " [no such value in the input]"
         if cause.startswith("attribute selector:"):
             m = re.search(r"\['([^']*)', '[^']*'\] != ", d)
